@@ -9,6 +9,7 @@ import MalVerif.Model.AGSerial
 import MalVerif.Model.Compiler.Parser
 import MalVerif.Model.LangGraph
 import MalVerif.Model.Legacy
+import MalVerif.Model.Neo4j
 open Lean MalVerif
 
 namespace Drv
@@ -591,6 +592,32 @@ def opLegacy (j : Json) : R Json := do
       let loaded := match Legacy.loadScad L g.assocs (fun _ => true) d with | .ok s' => obsM L s' | .error e => jS (mErrName e)
       pure (jO [("doc", scadDocToJson d), ("loaded", loaded), ("native", native)])
 
+
+/-! ### Neo4j ingestion (C19) -/
+def opNeo4jModel (j : Json) : R Json := do
+  let L ← parseLang (← jget j "lang")
+  let ops ← jfield jarr j "ops"
+  let s ← runModelOps L ops
+  let g := Neo.ingestModel s
+  let sub := jO [("nodes", jsonOfList (fun (n : Neo.DbNode) => Json.arr #[jS n.label, jS n.name, jS n.assetId, jS n.type]) g.nodes),
+                 ("rels", jsonOfList (fun (r : Neo.DbRel) => Json.arr #[jN r.src, jS r.type, jN r.dst]) g.rels)]
+  match LG.generate L with
+  | .error e => pure (jO [("sub", sub), ("error", jS (lgErrName e))])
+  | .ok lg =>
+    let back := match Neo.getModel L lg.assocs g with | .ok s' => obsM L s' | .error e => jS (mErrName e)
+    pure (jO [("sub", sub), ("back", back), ("orig", obsM L s)])
+
+def opNeo4jGraph (j : Json) : R Json := do
+  let ops ← jfield jarr j "ops"
+  let mut s : AGS.St := {}
+  for o in ops do
+    let (s', _, _) ← agStep s o
+    s := s'
+  let g := Neo.ingestGraph ntypeName s
+  pure (jO [("nodes", jsonOfList (fun (n : Neo.StepNode) => Json.arr #[jS n.label, jS n.name, jS n.fullName, jS n.type, jS n.ttc,
+                jB n.necessary, jB n.viable, jsonOfList jS n.compBy, jOptS n.defense]) g.nodes),
+            ("rels", jsonOfList (fun (r : Nat × Nat) => Json.arr #[jN r.1, jN r.2]) g.rels)])
+
 def dispatch (j : Json) : R Json := do
   let op ← jfield jstr j "op"
   match op with
@@ -604,6 +631,8 @@ def dispatch (j : Json) : R Json := do
   | "compile" => opCompile j
   | "langgraph" => opLangGraph j
   | "legacy" => opLegacy j
+  | "neo4j_model" => opNeo4jModel j
+  | "neo4j_graph" => opNeo4jGraph j
   | "lex" => opLex j
   | "ser_model" => opSerModel j
   | "load_doc" => opLoadDoc j
